@@ -242,6 +242,11 @@ func runC46(p *core.Prog, r *core.Report) {
 		core.CheckEffectsFn(p, r4, restore, core.EffectRule{Min: 1, Effect: only, Guards: []core.Guard{
 			core.G("record-read", core.ErrNil, "io.ReadFull").Where(func(s core.Site) bool { return s.Call.Common().Args[1] == arg })}})
 	}
+	// ---- R5 readers put between the caller's stream and Restore keep the io.Reader contract
+	r5 := r.Rule("C46.R5", "every Read method defined in the shard / engine packages that forwards to an inner Read passes the inner byte count on whenever it is non-zero — also together with an error (io.Reader allows the last bytes to arrive with io.EOF): a wrapper returning (0, err) there drops the tail of a valid dump", 1)
+	readWrappersKeepTheCount(p, r, r5)
+	r.Explain += " (R5) the stream Restore consumes may be wrapped on its way (counting, limiting): every Read method of the two packages that calls an inner Read returns that call's own count on every path, never a constant zero next to the inner error; and the engine hands Restore its caller's reader or such a wrapper."
+
 }
 
 // flowsTo: v reaches target through phis only.
@@ -312,4 +317,80 @@ func staleLenEdge(v ssa.Value, isSz func(ssa.Value) bool) string {
 		}
 	}
 	return ""
+}
+
+func readWrappersKeepTheCount(p *core.Prog, r *core.Report, h *core.RuleH) {
+	n := 0
+	fns := append(p.FuncsIn("pkg/local_object_storage/shard"), p.FuncsIn("pkg/local_object_storage/engine")...)
+	for _, fn := range fns {
+		if fn.Name() != "Read" || fn.Signature.Recv() == nil || fn.Blocks == nil || fn.Signature.Params().Len() != 1 || fn.Signature.Results().Len() != 2 {
+			continue
+		}
+		var inner []*ssa.Extract // result #0 of inner Read calls
+		innerErr := map[ssa.Value]bool{}
+		for _, b := range fn.Blocks {
+			for _, in := range b.Instrs {
+				c, ok := in.(ssa.CallInstruction)
+				if !ok {
+					continue
+				}
+				nm := ""
+				if c.Common().IsInvoke() {
+					nm = c.Common().Method.Name()
+				} else if cal := core.StaticCallee(c); cal != nil {
+					nm = cal.Name()
+				}
+				if nm != "Read" && nm != "ReadFull" && nm != "ReadAtLeast" {
+					continue
+				}
+				if v := c.Value(); v != nil && v.Referrers() != nil {
+					for _, ref := range *v.Referrers() {
+						if ex, isEx := ref.(*ssa.Extract); isEx {
+							if ex.Index == 0 {
+								inner = append(inner, ex)
+							} else {
+								innerErr[ex] = true
+							}
+						}
+					}
+				}
+			}
+		}
+		if len(inner) == 0 {
+			continue
+		}
+		n++
+		bad := ""
+		for _, b := range fn.Blocks {
+			ret, ok := b.Instrs[len(b.Instrs)-1].(*ssa.Return)
+			if !ok || len(ret.Results) != 2 {
+				continue
+			}
+			if c, isC := ret.Results[0].(*ssa.Const); isC && innerErr[ret.Results[1]] {
+				if k, isK := intConstOf(c); isK && k == 0 {
+					bad = p.InstrPos(ret)
+				}
+			}
+		}
+		h.Check(bad == "", core.FuncName(fn)+"#count-with-error", p.Pos(fn.Pos()), "the inner count is passed on with the inner error",
+			"this Read returns (0, err) with the inner reader's error ("+bad+") whatever count the inner Read reported: bytes delivered together with io.EOF are lost and a valid dump ends in 'unexpected EOF' with its last objects missing")
+	}
+	// the engine's entry: Restore gets the caller's reader, or a value of a type defined here (checked above)
+	if rs := p.Func("(*pkg/local_object_storage/engine.StorageEngine).RestoreShard"); rs == nil {
+		r.Fatalf("C46.R5: engine RestoreShard not found")
+	} else {
+		for _, cs := range core.CallSites([]*ssa.Function{rs}, func(s core.Site) bool { return s.Name == "(*pkg/local_object_storage/shard.Shard).Restore" }) {
+			n++
+			a := cs.Call.Common().Args[1]
+			ok := core.ParamIndex(rs, a) >= 0
+			if mi, isMI := a.(*ssa.MakeInterface); isMI && !ok {
+				ts := mi.X.Type().String()
+				ok = strings.Contains(ts, "pkg/local_object_storage/engine.") || strings.Contains(ts, "pkg/local_object_storage/shard.")
+			}
+			h.Check(ok, core.FuncName(rs)+"#stream", p.InstrPos(cs.Call), "Restore reads the caller's stream (directly or through a wrapper of these packages)", "the engine hands Restore a reader this rule cannot see into")
+		}
+	}
+	if n == 0 {
+		r.Fatalf("C46.R5: nothing to check")
+	}
 }
